@@ -499,6 +499,16 @@ def run(rep, tier, seed):
     st = {"cases": {}, "outcomes": {}, "total_unobserved": 0, "hint_one_past_last_kept": 0, "fsinfo_writeback_checked": 0,
           "accepted_fat32": 0, "accepted_with_zero_clusters": 0, "sampled": set(), "stats_result": {}, "by_variant": {"default": 0, "release": 0}, "chunks": 0}
     cfgs = TEMPLATES + ([] if quick else TEMPLATES_MORE)
+    # a FAT32 template with several sectors per cluster whose data area ends with sectors that do not form a whole cluster
+    # (cluster-number bounds and location bounds differ there)
+    for cand in (("f32tail", "-", 140001, 1024, "32"), ("f32tail", "-", 140002, 1024, "32"), ("f32tail", "-", 270003, 2048, "32")):
+        try:
+            tt = make_templates([cand], "default")[0]
+        except AssertionError:
+            continue
+        if tt.g.bits == 32 and (tt.g.total_sectors - tt.g.first_data) % tt.g.spc != 0:
+            cfgs = cfgs + [cand]
+            break
     ts = make_templates(cfgs, "default")
     for t in ts:
         if t.g.bits != int(t.fat):
